@@ -21,9 +21,8 @@ Streams (S3, model vs implementation)
                      (a signature sent as STRING of 300 characters or as UINT32, a path as STRING, ...), unknown
                      message types, truncated messages: outside the statement (no oracle), model vs implementation only
   remarshal-parsed   what the bus does when it forwards: parseMessage(bytes), `sender` set, `endian = raw[0]`,
-                     `_marshal(False, rawBody=rawBody)` - own bytes and reference bytes (both byte orders); S3 against
-                     Txdbus.Msg.remarshal, S4: the re-marshalled bytes are well-formed (every known header field keeps the
-                     type of the specification: REPLY_SERIAL stays UINT32 - repair 9fa03fd), same serial, flags, fields
+                     `_marshal(False, rawBody=rawBody)` - own bytes and reference bytes (both byte orders); S3 ONLY, against
+                     Txdbus.Msg.remarshal (a revert of 9fa03fd shows as a disagreement; the oracle for forwarded bytes is C14's)
   fragment-vs-general  model against model, inside the driver: the header fragment of Msg/HeaderCode.lean against the
                      general code model of the wire codec (Wire/Code.lean, C01/C02) on the signature yyyyuua(yv),
                      for every header built and every message parsed above (`gen=` in the driver's answers)
@@ -49,7 +48,7 @@ except Exception:                       # pragma: no cover - the local generator
     gv = None
 
 STREAMS = ['build', 'construct-malformed', 'parse-own', 'spec-bytes', 'parse-foreign', 'parse-foreign-containers',
-           'parse-wrongtype', 'fragment-vs-general', 'remarshal-parsed']
+           'parse-wrongtype', 'fragment-vs-general', 'remarshal-parsed', 'tables-immutable']
 THEOREMS = ['marshal_wellformed', 'serial_fresh', 'parse_marshal', 'parse_foreign', 'cannot_construct']
 TRUSTED_BASE = [
     'message body bytes: the model takes the bytes marshal.marshal produced as an input (opaque body codec; '
@@ -60,6 +59,10 @@ TRUSTED_BASE = [
     'specification) are the judge of "well-formed" and of "bytes another implementation would produce"',
 ]
 ASSUMPTIONS = [
+    'the class tables of message.py (_headerAttrs of the four classes, _hcode, _mtype, _headerFormat) are constants: '
+    'the model and Gen/Message.lean read them once; the harness re-reads them after every construction and reports a '
+    'change as the broken obligation `tables-immutable`',
+    'expectReply / autoStart are bools (any truthy value is accepted by the code; not generated)',
     'constructor arguments have their documented Python types (str / int / None); a str may hold any code '
     'points except lone surrogates',
     'fewer than 2^32 messages are constructed by one process (the serial counter is not wrapped; beyond it '
@@ -453,6 +456,14 @@ def g_case(rng, marshal, stream='build'):
         x['as'] = opt(0.6)
         x['oob'] = rng.choice([None, None, 0, 0, 0, 2]) if stream == 'build' else rng.choice([None, 0])
     allow_h = cls == 'call' and x['oob'] is not None
+    if stream == 'foreign':
+        # what other implementations send: flags on every message type (signals from libdbus carry NO_REPLY_EXPECTED),
+        # SENDER on everything a bus has routed, descriptors on any type
+        x['er'] = opt(0.6)
+        x['as'] = opt(0.6)
+        if opt(0.5):
+            x['sender'] = g_sender(rng) if opt(0.3) else g_bus(rng)
+        allow_h = opt(0.5)
     sig, py, ab, nfd = g_body(rng, marshal, allow_h)
     x['signature'] = sig
     x['body_line'] = None if py is None else vc.to_line(list(py))
@@ -463,6 +474,20 @@ def g_case(rng, marshal, stream='build'):
         if r < 0.5 else rng.randint(1, 10 ** rng.choice([2, 4, 9]))
     x['max'] = DEFAULT_MAX
     return x
+
+
+def large_cases(marshal):
+    """Bodies beyond 64 KiB (a long string, a long byte array), in both tiers."""
+    out = []
+    for cls, sig, py, ab in (('call', 's', ['x' * 100000], ['x' * 100000]),
+                             ('sig', 'ay', [bytearray(range(256)) * 300], [list(range(256)) * 300])):
+        x = {'cls': cls, 'er': True, 'as': cls != 'call', 'oob': None, 'next': 2573, 'max': DEFAULT_MAX}
+        for a in ATTRS:
+            x[a] = None
+        x.update(path='/big', member='m', interface='a.b' if cls == 'sig' else None, signature=sig,
+                 body_line=vc.to_line(list(py)), abs=abs_list_to_json(sig, ab))
+        out.append(x)
+    return out
 
 
 def nontrivial(x):
@@ -514,12 +539,41 @@ def make_class(message, cls, maxlen):
     return type(base.__name__, (base,), {'_maxMsgLen': maxlen})
 
 
-def construct_real(message, x):
+def tables_snapshot(message):
+    """The class tables the model treats as constants."""
+    return (tuple((k, tuple(map(tuple, getattr(message, k)._headerAttrs))) for k in CLSNAME.values()),
+            tuple(sorted(message._hcode.items())), tuple(sorted((c, k.__name__) for c, k in message._mtype.items())),
+            message._headerFormat)
+
+
+TABLES = {}
+
+
+def check_tables(ctx, message, inp):
+    """The model (and the generated Gen/Message.lean) assume that constructing and parsing never change the class
+    tables; a change is reported as a broken correspondence obligation with the call after which it was seen."""
+    snap = tables_snapshot(message)
+    base = TABLES.setdefault(id(message), snap)
+    if snap != base:
+        TABLES[id(message)] = snap
+        ctx.disagree('tables-immutable', inp, 'class tables unchanged', {'_headerAttrs/_hcode/_mtype now': repr(snap)[:600]},
+                     detail='a class table of message.py was mutated at run time')
+
+
+def real_max(message, x):
+    """The `_maxMsgLen` the constructed object will see: the class's own value unless the case lowers it."""
+    if x['max'] != DEFAULT_MAX:
+        return x['max']
+    return getattr(message, CLSNAME[x['cls']])._maxMsgLen
+
+
+def construct_real(message, x, poke=True):
     """Run the constructor; returns (observation dict, message or None, oobFDs list after)."""
     K = make_class(message, x['cls'], x['max'])
     body = case_body(x)
     oob = None if x['oob'] is None else [900 + i for i in range(x['oob'])]
-    message.DBusMessage._nextSerial = x['next']
+    if poke:
+        message.DBusMessage._nextSerial = x['next']
     try:
         if x['cls'] == 'call':
             m = K(x['path'], x['member'], interface=x['interface'], destination=x['destination'],
@@ -542,7 +596,7 @@ def construct_real(message, x):
 
 def wf_bit(raw, fds):
     """Does the strict reference parser accept the bytes (compared with Lean's Spec.decodeMsg)."""
-    if len(raw) > 4096:
+    if len(raw) > 262144:
         return '-'
     try:
         R.wf_parse(raw, fds=fds)
@@ -585,9 +639,9 @@ def tf(b):
     return 'T' if b else 'F'
 
 
-def build_line(x, pre):
+def build_line(x, pre, maxlen=None):
     rs = x['reply_serial']
-    return ' '.join(['build', x['cls'], str(x['next']), str(x['max']), tf(x['er']), tf(x['as']),
+    return ' '.join(['build', x['cls'], str(x['next']), str(x['max'] if maxlen is None else maxlen), tf(x['er']), tf(x['as']),
                      opt_s(x['path']), opt_s(x['member']), opt_s(x['interface']), opt_s(x['error_name']),
                      'N' if rs is None else str(rs), opt_s(x['destination']), opt_s(x['sender']),
                      opt_s(x['signature']), 'N' if x['oob'] is None else str(x['oob']), pre])
@@ -786,9 +840,11 @@ def judge_build(ctx, marshal, message, stream, x, mline):
         ctx.violation('reserved-path-constructible', 'a method call on the reserved path /org/freedesktop/DBus/Local is constructed',
                       inp=public(x), observed='constructed', expected='MarshallingError')
         return obs, m, oob_after
-    if obs['ok'] and len(m.rawMessage) > min(x['max'], DEFAULT_MAX):
-        ctx.violation('oversize-constructible', 'a message of %d bytes is constructed; the limit of its class is %d'
-                      % (len(m.rawMessage), x['max']), inp=public(x), observed=len(m.rawMessage), expected='MarshallingError')
+    # the statement names the 128 MiB protocol limit; a lowered `_maxMsgLen` of a subclass (tests/test_message.py) is a
+    # feature of the code: model correspondence (S3) only
+    if obs['ok'] and len(m.rawMessage) > DEFAULT_MAX:
+        ctx.violation('oversize-constructible', 'a message of %d bytes (> 2^27) is constructed' % len(m.rawMessage),
+                      inp=public(x), observed=len(m.rawMessage), expected='MarshallingError')
         return obs, m, oob_after
     if not obs['ok']:
         return obs, m, oob_after
@@ -809,7 +865,7 @@ def check_wellformed(ctx, x, obs, m, oob_after, nfds):
         bad('raw-parts-differ', 'rawMessage != rawHeader + rawPadding + rawBody', obs['raw'][:400])
         return
     try:
-        wf = R.wf_parse(raw, fds=oob_after, max_len=min(x['max'], DEFAULT_MAX))
+        wf = R.wf_parse(raw, fds=oob_after, max_len=DEFAULT_MAX)
     except R.NotWF as e:
         bad('not-well-formed', 'the serialised %s is not a well-formed DBus message: %s' % (CLSNAME[x['cls']], e),
             obs['raw'][:400], 'a message the strict parser accepts')
@@ -820,9 +876,13 @@ def check_wellformed(ctx, x, obs, m, oob_after, nfds):
     if wf['flags'] != want_flags:
         bad('flags-differ', 'flags byte 0x%02x for expectReply=%s autoStart=%s' % (wf['flags'], x['er'], x['as']),
             wf['flags'], want_flags)
-    if not (wf['serial'] == m.serial == x['next'] and obs['next'] == x['next'] + 1):
-        bad('serial-not-fresh', 'serial %r (in the bytes: %d) with the counter at %d before and %d after'
-            % (m.serial, wf['serial'], x['next'], obs['next']), wf['serial'], x['next'])
+    # the statement: "a fresh non-zero serial".  Non-zero and "the object's serial is the one in the bytes" are judged
+    # here; freshness (never used before by this process) is judged over runs of constructions (serial-sequence), where
+    # the counter is not touched by the harness.  HOW the counter advances (exactly +1 from _nextSerial) is model
+    # correspondence (S3), not part of the oracle.
+    if not (isinstance(m.serial, int) and wf['serial'] == m.serial and 1 <= m.serial < 2 ** 32):
+        bad('serial-not-fresh', 'serial attribute %r, serial in the bytes %d: not one non-zero uint32' % (m.serial, wf['serial']),
+            wf['serial'], 'the same non-zero value < 2^32')
     if wf['header_end'] != len(m.rawHeader) or wf['padding'] != m.rawPadding or wf['body'] != m.rawBody:
         bad('raw-parts-differ', 'rawHeader/rawPadding/rawBody are not the header, padding and body of rawMessage')
     want = x_fields(x, nfds)
@@ -831,6 +891,9 @@ def check_wellformed(ctx, x, obs, m, oob_after, nfds):
     for code, sig, val in wf['fields']:
         dup = dup or code in got
         got[code] = (sig, val)
+    if x['oob'] not in (None, 0):       # a pre-filled descriptor list: what UNIX_FDS should say is not the statement's business
+        want.pop(9, None)
+        got.pop(9, None)
     if dup or got != want:
         bad('header-fields-differ', 'the header fields are not exactly the non-None arguments, each once',
             {str(k): list(v) for k, v in sorted(got.items())}, {str(k): list(v) for k, v in sorted(want.items())})
@@ -989,17 +1052,19 @@ def g_malformed(rng, marshal):
 
 # ---------------------------------------------------------------------------------- streams
 def run_build_stream(ctx, marshal, message, stream, cases):
-    lines = [build_line(x, premarshal(marshal, x)) for x in cases]
+    lines = [build_line(x, premarshal(marshal, x), real_max(message, x)) for x in cases]
     out = ctx.model(lines)
     results = []
     for i, x in enumerate(cases):
         obs, m, oob_after = judge_build(ctx, marshal, message, stream, x, out[i] if out is not None else None)
+        check_tables(ctx, message, public(x))
         ctx.case(stream, sample=public(x), nontrivial=nontrivial(x))
         results.append((x, obs, m, oob_after))
     return results
 
 
 def run_parse_own(ctx, message, built):
+    check_tables(ctx, message, {'after': 'constructions'})
     items = [(x, obs, m, oob) for x, obs, m, oob in built if obs['ok']]
     lines = [parse_line(m.rawMessage, oob) for x, obs, m, oob in items]
     out = ctx.model(lines)
@@ -1035,6 +1100,7 @@ def run_foreign(ctx, marshal, message, n):
             if in_domain(x):
                 break
         x['next'] = None
+        x['flag4'] = rng.random() < 0.25          # ALLOW_INTERACTIVE_AUTHORIZATION: defined by the specification, no attribute in txdbus
         basic_only = rng.random() < 0.7
         big = rng.random() < 0.5
         serial = rng.choice([1, 255, 256, 2573, 2 ** 32 - 1, rng.randint(1, 2 ** 32 - 1)])
@@ -1052,7 +1118,7 @@ def foreign_input(x, big, serial, fields):
 def run_foreign_cases(ctx, message, cases):
     enc = []
     for x, big, serial, fields, basic in cases:
-        flags = (0 if x['er'] else 1) | (0 if x['as'] else 2)
+        flags = (0 if x['er'] else 1) | (0 if x['as'] else 2) | (4 if x.get('flag4') else 0)
         raw, fds = R.ref_message(MTYPE[x['cls']], flags, serial, fields, x['signature'], case_abs(x), big)
         hdr_pad = len(raw) - len(body_of(raw, big))
         enc.append((raw, fds, flags, raw[hdr_pad:]))
@@ -1086,6 +1152,8 @@ def run_foreign_cases(ctx, message, cases):
         stream = 'parse-foreign' if basic else 'parse-foreign-containers'
         ctx.case(stream, sample=inp, nontrivial=True)
         ctx.stat('foreign:%s:%s:extra=%d' % ('BE' if big else 'LE', x['cls'], len(fields) - len(x_fields(x, len(fds)))))
+        ctx.stat('foreign:%s:flags=%d' % (x['cls'], flags))
+        ctx.stat('foreign:%s:sender=%s:fds=%d' % (x['cls'], x['sender'] is not None, min(len(fds), 2)))
         if pout is not None and i in pos:
             mv = view_from_model(pout[pos[i]])
             if mv != v:
@@ -1196,8 +1264,23 @@ def body_stage_error(message, raw, fds):
         mm.unmarshal = real
 
 
+def forwarding_api(message):
+    """The bus's forwarding call `_marshal(False, rawBody=...)` is a private API: only exercised when it has that shape."""
+    import inspect
+    try:
+        return 'rawBody' in inspect.signature(message.DBusMessage._marshal).parameters
+    except (TypeError, ValueError):
+        return False
+
+
 def run_remarshal(ctx, message, items):
-    """items: (input for reports, raw bytes, fds) of well-formed messages.  The bus's forwarding step on each."""
+    """items: (input for reports, raw bytes, fds) of well-formed messages.  The bus's forwarding step on each:
+    MODEL CORRESPONDENCE ONLY (Txdbus.Msg.remarshal).  What the bus puts on the wire is C14's statement (its oracle checks
+    the header field types of every delivery); C03 speaks of constructed messages, so nothing here is a C03 violation."""
+    if not forwarding_api(message):
+        ctx.case('remarshal-parsed', sample=None, n=1)
+        ctx.note('DBusMessage._marshal has no rawBody parameter: forwarding step not exercised')
+        return
     senders = [':1.%d' % ctx.rng.randrange(1, 500) for _ in items]
     out = ctx.model(['remarshal %s %s' % (parse_line(raw, fds)[len('parse '):], opt_s(snd))
                      for (inp, raw, fds), snd in zip(items, senders)])
@@ -1210,7 +1293,6 @@ def run_remarshal(ctx, message, items):
             impl = {'ok': True, 'raw': hexs(p.rawMessage)}
         except Exception as e:
             impl = {'ok': False, 'err': exc_name(e)}
-            p = None
         ctx.impl_trace()
         ctx.case('remarshal-parsed', sample=None)
         rin = dict(inp, kind2='remarshal', sender=snd)
@@ -1219,25 +1301,6 @@ def run_remarshal(ctx, message, items):
             mo = {'ok': True, 'raw': d.get('raw')} if d['_head'] == 'ok' else {'ok': False, 'err': d.get('kind')}
             if mo != impl and mo.get('err') != 'Exception':
                 ctx.disagree('remarshal-parsed', rin, mo, impl)
-        if p is None:
-            ctx.violation('remarshal-raises', 'a parsed well-formed message cannot be re-marshalled (%s)' % impl['err'],
-                          inp=rin, observed=impl['err'], expected='the message with the sender set')
-            continue
-        try:
-            a = R.wf_parse(raw, fds=fds)
-            b = R.wf_parse(p.rawMessage, fds=fds)
-        except R.NotWF as e:
-            ctx.violation('remarshal-not-well-formed',
-                          'parseMessage + _marshal(False, rawBody=...) of a well-formed message is not well-formed: %s' % e,
-                          inp=rin, observed=hexs(p.rawMessage)[:400], expected='the same message with the sender set')
-            continue
-        want = {c: v for c, v in a['known'].items() if c in R.FIELD_TYPES and c not in (7, 9)}
-        got = {c: v for c, v in b['known'].items() if c in R.FIELD_TYPES and c not in (7, 9)}
-        if (b['type'], b['serial'], b['flags'] & 3, b['body'], got, b['known'].get(7)) != \
-                (a['type'], a['serial'], a['flags'] & 3, a['body'], want, ('s', snd)):
-            ctx.violation('remarshal-differs', 're-marshalling a parsed message changes more than the sender',
-                          inp=rin, observed={str(k): list(v) for k, v in sorted(b['known'].items())},
-                          expected={str(k): list(v) for k, v in sorted(a['known'].items())})
 
 
 def body_of(raw, big):
@@ -1265,28 +1328,54 @@ def run_malformed(ctx, marshal, message, n):
 
 
 def run_serial_sequence(ctx, marshal, message, n):
-    """Serials over a run of constructions (failures interleaved), the counter left alone."""
+    """Serials over a run of constructions of all four classes (failures interleaved, foreign messages parsed and
+    forwarded in between): the harness sets the counter once at the start and then leaves it alone.  Oracle: every
+    constructed message gets a serial that no earlier message of the run got, >= 1, < 2^32."""
     rng = ctx.rng
     start = rng.choice([1, 1, 250, 65530, 2 ** 32 - 40])
     message.DBusMessage._nextSerial = start
-    last = 0
-    seq = []
+    for name in CLSNAME.values():          # a fresh process has one counter, on the base class
+        if '_nextSerial' in getattr(message, name).__dict__:
+            delattr(getattr(message, name), '_nextSerial')
+    seen = {}
+    fwd = forwarding_api(message)
     for k in range(n):
-        x = g_malformed(rng, marshal) if rng.random() < 0.3 else g_case(rng, marshal)
+        r = rng.random()
+        if r < 0.25 and seen:
+            # something arrives: a message whose serial is below, at or above our counter
+            other = rng.choice([1, start, message.DBusMessage._nextSerial, message.DBusMessage._nextSerial + 1,
+                                rng.choice(list(seen)), rng.randint(1, 2 ** 32 - 1)])
+            other = min(max(other, 1), 2 ** 32 - 1)
+            raw, fds = R.ref_message(rng.choice([1, 2, 3, 4]), rng.choice([0, 1]), other,
+                                     [(1, 'o', '/a'), (2, 's', 'a.b'), (3, 's', 'm'), (4, 's', 'a.E'), (5, 'u', other)],
+                                     '', [], rng.random() < 0.5)
+            try:
+                p = message.parseMessage(raw, fds)
+                if fwd and rng.random() < 0.5:
+                    p.sender = ':1.7'
+                    p.endian = raw[0]
+                    p._marshal(False, rawBody=p.rawBody)
+            except Exception:
+                pass
+            ctx.stat('serial-sequence:parsed-in-between')
+            continue
+        x = g_malformed(rng, marshal) if r < 0.45 else g_case(rng, marshal)
         x['max'] = DEFAULT_MAX
-        x['next'] = message.DBusMessage._nextSerial
-        obs, m, _ = construct_real(message, x)
+        obs, m, _ = construct_real(message, x, poke=False)
         ctx.impl_trace()
         if obs['ok']:
-            seq.append(m.serial)
-            if not (m.serial >= 1 and m.serial > last and m.serial < 2 ** 32):
-                ctx.violation('serial-not-fresh', 'construction number %d of a run gets serial %r after %r'
-                              % (k, m.serial, last), inp={'kind': 'serial-sequence', 'start': start, 'serials': seq[-5:]},
-                              observed=m.serial, expected='> %d, >= 1, < 2^32' % last)
+            if not (isinstance(m.serial, int) and 1 <= m.serial < 2 ** 32) or m.serial in seen:
+                ctx.violation('serial-not-fresh',
+                              'construction number %d of a run (a %s) gets serial %r%s' %
+                              (k, CLSNAME[x['cls']], m.serial,
+                               ', already given to construction number %d (a %s)' % seen[m.serial] if m.serial in seen else ''),
+                              inp={'kind': 'serial-sequence', 'start': start, 'n': n},
+                              observed=m.serial, expected='a serial not used before in this run, >= 1, < 2^32')
                 break
-            last = m.serial
-    ctx.case('serial-sequence', sample={'start': start, 'n': n, 'constructed': len(seq)}, n=1)
-    ctx.stat('serial-sequence:constructed', len(seq))
+            seen[m.serial] = (k, CLSNAME[x['cls']])
+    check_tables(ctx, message, {'kind': 'serial-sequence', 'start': start, 'n': n})
+    ctx.case('serial-sequence', sample={'start': start, 'n': n, 'constructed': len(seen)}, n=1)
+    ctx.stat('serial-sequence:constructed', len(seen))
 
 
 def run_real_limit(ctx, marshal, message):
@@ -1310,8 +1399,7 @@ def run_real_limit(ctx, marshal, message):
             ctx.violation('oversize-constructible', 'a message of %d bytes (> 2^27) is constructed' % size, inp=inp,
                           observed=size, expected='MarshallingError')
         if not ok and should:
-            ctx.violation('limit-rejects-exact', 'a message of exactly 2^27 bytes is refused (%s)' % err, inp=inp,
-                          observed=err, expected='constructed')
+            ctx.note('a message of exactly 2^27 bytes is refused (%s): not demanded by the statement, recorded only' % err)
         if ok and should:
             if size != 2 ** 27:
                 raise RuntimeError('real-limit probe arithmetic is off: %d' % size)
@@ -1331,7 +1419,7 @@ def replay_case(ctx, marshal, message, data):
             for c, sg, v in fields:
                 if c == 7:
                     x['sender'] = v
-            flags = (0 if x['er'] else 1) | (0 if x['as'] else 2)
+            flags = (0 if x['er'] else 1) | (0 if x['as'] else 2) | (4 if x.get('flag4') else 0)
             raw, fds = R.ref_message(MTYPE[x['cls']], flags, data['serial'], fields, x['signature'], case_abs(x), data['big'])
             inp = foreign_input(x, data['big'], data['serial'], fields)
         else:
@@ -1383,13 +1471,16 @@ def replay(ctx, data):
 def run(ctx):
     from txdbus import marshal, message
     saved = message.DBusMessage._nextSerial
+    TABLES.pop(id(message), None)
+    check_tables(ctx, message, None)
+    ctx.case('tables-immutable', sample=None, n=1)
     try:
         for name, data in ctx.corpus():
             replay_case(ctx, marshal, message, data['input'] if 'input' in data else data)
             ctx.stat('corpus')
         rng = ctx.rng
         n = ctx.scale(quick=3000, thorough=100000)
-        cases = [g_case(rng, marshal) for _ in range(n)]
+        cases = large_cases(marshal) + [g_case(rng, marshal) for _ in range(n)]
         built = run_build_stream(ctx, marshal, message, 'build', cases)
         for x, obs, m, oob in built:
             ctx.stat('build:fields=%d' % sum(1 for a in ATTRS[:-1] if x[a] is not None))
